@@ -170,7 +170,8 @@ Print Assumptions C05_uc_weighted_is_not_plain_mean.
     pybrops/model/embvmat on every run by harness/translate/c05_kernel.py) are the expressions the model is built from:
     the guard and the normalisation of all 39 Real/Integer/Binary latent functions, the sign and the 1/k coefficient of the
     linear, quadratic and family bodies, the order of the latent blocks, the binary64 frequency quotient and the threshold /
-    flag algebra of PAU and MOGS including which helper the tfreq setter stores in which flag, the max-type coefficients,
+    flag algebra of PAU and MOGS including which helper each flag property evaluates on access on the target array held (the
+    translator refuses a tfreq setter that stores anything derived from the array), the max-type coefficients,
     evalfn (which weights multiply which transformation of (x, latent), order of the triple), the usefulness criterion and the
     accumulate-and-divide loop of the expected maximum breeding value. *)
 Theorem C05_kernel_is_model :
@@ -187,8 +188,8 @@ Theorem C05_kernel_is_model :
   (forall pl G s j, pfreq_f pl G s j = k_pfreq__pau (f_of_Z (acount G s j)) (f_of_Z (k_pfreq_den__pau pl (Z.of_nat (length s)))) /\
                     pfreq_f pl G s j = k_pfreq__mogs (f_of_Z (acount G s j)) (f_of_Z (k_pfreq_den__mogs pl (Z.of_nat (length s))))) /\
   (forall c pl k, k_pfreq__pafd (f_of_Z c) (f_of_Z (k_pfreq_den__pafd pl k)) = pfreq_of_count c (pl * k)) /\
-  (forall x, k_pau_set_tminor x = t_minor x /\ k_pau_set_thet x = t_het x /\ k_pau_set_tmajor x = t_major x /\
-             k_pafd_set_tminor x = t_minor x /\ k_pafd_set_thet x = t_het x /\ k_pafd_set_tmajor x = t_major x) /\
+  (forall x, k_pau_flag_tminor x = t_minor x /\ k_pau_flag_thet x = t_het x /\ k_pau_flag_tmajor x = t_major x /\
+             k_pafd_flag_tminor x = t_minor x /\ k_pafd_flag_thet x = t_het x /\ k_pafd_flag_tmajor x = t_major x) /\
   (forall n t M ids s, fam_subset n t M ids s = k_cat__FamilyEstimatedBreedingValueSubsetSelectionProblem Q (lin_subset t M s)
         (map k_famneg__FamilyEstimatedBreedingValueSubsetSelectionProblem (bincount (nfam ids) (famix ids) (famwt_subset n s)))) /\
   (forall a (l : list Q), k_cat__OptimalContributionSubsetSelectionProblem lv [Sq a] (map Ex l) = Sq a :: map Ex l) /\
@@ -246,9 +247,10 @@ Theorem C05_kernel_gb_slice : forall (l : list Q) nbest,
 Proof. exact (@k_gb_slice Q). Qed.
 Print Assumptions C05_kernel_gb_slice.
 
-(** Sessions: a problem object that is re-used — data re-assigned through its setters between calls — answers every call
-    from the data it holds at that call: after ANY history of assignments and calls, the next call returns the latent
-    vector of the last assignment, and two histories that leave the same data give the same answer. *)
+(** Sessions: a problem object that is re-used — data re-assigned through its setters ([OSet]) or updated in place ([OUpd])
+    between calls — answers every call from the data it holds at that call: after ANY history of assignments, in-place updates
+    and calls, the next call returns the latent vector of the data the history left ([last_set]: the last assignment with the
+    in-place updates made since), and two histories that leave the same data give the same answer. *)
 Theorem C05_session_call_is_function_of_current_data : forall n fd0 ops d,
   snd (run n fd0 (ops ++ [OCall d])) = snd (run n fd0 ops) ++ [latent n (last_set fd0 ops) d].
 Proof. exact session_call. Qed.
@@ -271,27 +273,34 @@ Theorem C05_embv_homozygous_is_bv : forall reps q b, reps <> [] ->
 Proof. exact embv_entry_const. Qed.
 Print Assumptions C05_embv_homozygous_is_bv.
 
-(** Finding C05-tfreq-inplace-stale-flags: the tfreq setters of the PAU / MOGS mixins store the flags derived from the targets;
-    an in-place update of the target array the problem holds is seen by the distance term but not by the availability term
-    ([pau_stale] / [mogs_stale] model the code: flags of the targets at the setter, distances to the current targets) ... *)
-Theorem C05_tfreq_inplace_stale_flags_refuted : exists pl G w tf_set tf_now p t s,
-  mogs_stale pl G w tf_set tf_now p t s <> mogs_pau_code pl G w tf_now p t s ++ pafd pl G w tf_now p t s /\
-  pau_stale pl G w tf_set tf_now p t s <> pau_code pl G w tf_now p t s.
-Proof. exact tfreq_inplace_stale_refuted. Qed.
-Print Assumptions C05_tfreq_inplace_stale_flags_refuted.
-(** ... exactly when a target changes its class: if every target stays in its class the result is the definition on the
-    current targets *)
-Theorem C05_tfreq_inplace_mogs_partial : forall pl G w tf_set tf_now p t s,
-  (forall j q, (j < p)%nat -> (q < t)%nat -> Qle_bool (mget tf_set j q) 0 = Qle_bool (mget tf_now j q) 0 /\ Qle_bool 1 (mget tf_set j q) = Qle_bool 1 (mget tf_now j q)) ->
-  mogs_stale pl G w tf_set tf_now p t s = mogs_pau_code pl G w tf_now p t s ++ pafd pl G w tf_now p t s.
-Proof. exact mogs_stale_partial. Qed.
-Print Assumptions C05_tfreq_inplace_mogs_partial.
-Theorem C05_tfreq_inplace_pau_partial : forall pl G w tf_set tf_now p t s,
-  (forall j q, (j < p)%nat -> (q < t)%nat -> t_minor (mget tf_set j q) = t_minor (mget tf_now j q) /\ t_het (mget tf_set j q) = t_het (mget tf_now j q)
-                                            /\ t_major (mget tf_set j q) = t_major (mget tf_now j q)) ->
-  pau_stale pl G w tf_set tf_now p t s = pau_code pl G w tf_now p t s.
-Proof. exact pau_stale_partial. Qed.
-Print Assumptions C05_tfreq_inplace_pau_partial.
+(** Finding C05-tfreq-inplace-stale-flags (repaired): the flag properties of the PAU / PAFD / MOGS mixins compute tminor / thet /
+    tmajor (tfreq_fix_minor / major / heter) from the target array the problem holds each time they are read.  After the targets
+    were overwritten IN PLACE ([OUpd (set_targets tf')]) the next call answers for the data with the new targets, after any
+    history ... *)
+Theorem C05_tfreq_inplace_call : forall n fd0 ops tf' d,
+  snd (run n fd0 (ops ++ [OUpd (set_targets tf'); OCall d])) = snd (run n fd0 ops) ++ [latent n (set_targets tf' (last_set fd0 ops)) d].
+Proof. exact tfreq_inplace_call. Qed.
+Print Assumptions C05_tfreq_inplace_call.
+(** ... and that answer is the definition (allele counts against the CURRENT targets), whatever the targets were when the setter
+    ran — no relation between [tf_set] and [tf_now] is assumed (formerly: only if no target changed its class) *)
+Theorem C05_tfreq_inplace_mogs : forall n pl G w tf_set tf_now p t s, s <> [] -> (0 < popsize pl s <= 2^53)%Z -> geno_ok pl G s p ->
+  latent n (set_targets tf_now (FMogs pl G w tf_set p t)) (DSub s) = Some (map Ex (pau_def pl G w tf_now p t s ++ pafd pl G w tf_now p t s)).
+Proof. exact mogs_inplace_is_definition. Qed.
+Print Assumptions C05_tfreq_inplace_mogs.
+Theorem C05_tfreq_inplace_pau : forall n pl G w tf_set tf_now p t s, s <> [] -> (0 < popsize pl s <= 2^53)%Z -> geno_ok pl G s p -> targets_unit tf_now p t ->
+  latent n (set_targets tf_now (FPau pl G w tf_set p t)) (DSub s) = Some (map Ex (pau_def pl G w tf_now p t s)).
+Proof. exact pau_inplace_is_definition. Qed.
+Print Assumptions C05_tfreq_inplace_pau.
+(** regression witness about the FORMER code ([old_pau_stale] / [old_mogs_stale] of the model, not used by [latent]: flags cached
+    by the tfreq setter, distances to the current targets): the availability term missed the in-place update, the current code
+    (last two conjuncts, same input) does not *)
+Theorem C05_old_tfreq_inplace_stale_flags_refuted : exists pl G w tf_set tf_now p t s,
+  old_mogs_stale pl G w tf_set tf_now p t s <> mogs_pau_code pl G w tf_now p t s ++ pafd pl G w tf_now p t s /\
+  old_pau_stale pl G w tf_set tf_now p t s <> pau_code pl G w tf_now p t s /\
+  latent 2 (set_targets tf_now (FMogs pl G w tf_set p t)) (DSub s) = Some (map Ex (mogs_pau_code pl G w tf_now p t s ++ pafd pl G w tf_now p t s)) /\
+  latent 2 (set_targets tf_now (FPau pl G w tf_set p t)) (DSub s) = Some (map Ex (pau_code pl G w tf_now p t s)).
+Proof. exact old_tfreq_inplace_stale_refuted. Qed.
+Print Assumptions C05_old_tfreq_inplace_stale_flags_refuted.
 
 (** non-vacuity: concrete values meeting the hypotheses used above *)
 Example C05_hyps_satisfiable :
@@ -344,7 +353,13 @@ Proof.
 Qed.
 
 Example C05_tfreq_inplace_hyps_satisfiable :
-  (forall j q, (j < 1)%nat -> (q < 1)%nat -> Qle_bool (mget [[1#2]] j q) 0 = Qle_bool (mget [[1#4]] j q) 0 /\ Qle_bool 1 (mget [[1#2]] j q) = Qle_bool 1 (mget [[1#4]] j q)) /\
-  (forall j q, (j < 1)%nat -> (q < 1)%nat -> t_minor (mget [[1#2]] j q) = t_minor (mget [[1#4]] j q) /\ t_het (mget [[1#2]] j q) = t_het (mget [[1#4]] j q)
-                                            /\ t_major (mget [[1#2]] j q) = t_major (mget [[1#4]] j q)).
-Proof. split; intros j q Hj Hq; (destruct j; [|lia]); (destruct q; [|lia]); repeat split; reflexivity. Qed.
+  let G := [[2; 0]; [2; 2]]%Z in let s := [0; 1]%nat in let tf_set := [[1#2]; [1#2]] in let tf_now := [[1]; [1#2]] in
+  s <> [] /\ (0 < popsize 2 s <= 2^53)%Z /\ geno_ok 2 G s 2 /\ targets_unit tf_now 2 1 /\
+  latent 2 (set_targets tf_now (FMogs 2 G [[1]; [1]] tf_set 2 1)) (DSub s) = Some [Ex 0; Ex 0] /\
+  last_set (FPau 2 G [[1]; [1]] tf_set 2 1) [OCall (DSub s); OUpd (set_targets tf_now)] = FPau 2 G [[1]; [1]] tf_now 2 1.
+Proof.
+  cbv zeta. split; [discriminate|]. split; [vm_compute; split; [reflexivity | discriminate]|].
+  split; [intros j Hj; destruct j as [|[|j]]; [vm_compute; split; discriminate | vm_compute; split; discriminate | lia]|].
+  split; [intros j q Hj Hq; destruct j as [|[|j]]; [| |lia]; (destruct q as [|q]; [reflexivity | lia])|].
+  split; [vm_compute|]; reflexivity.
+Qed.
